@@ -183,7 +183,7 @@ func polyCoords(r *rand.Rand, o *DocOpts) *V {
 	a := arr()
 	for i := 0; i < rings; i++ {
 		n := 3 + r.Intn(max(1, o.MaxPts-2))
-		if o.BigOften && r.Intn(6) == 0 {
+		if o.BigOften && r.Intn(12) == 0 {
 			n = 60 + r.Intn(10)
 		}
 		d := d0
@@ -331,7 +331,7 @@ func GenDocType(r *rand.Rand, o *DocOpts, depth int, t string) *V {
 	m := obj(kv("type", str(t)))
 	kids := func() int {
 		n := r.Intn(max(1, o.MaxKids) + 1)
-		if o.BigOften && r.Intn(8) == 0 {
+		if o.BigOften && depth == 0 && r.Intn(8) == 0 {
 			n = 62 + r.Intn(6)
 		}
 		return n
@@ -373,9 +373,10 @@ func GenDocType(r *rand.Rand, o *DocOpts, depth int, t string) *V {
 			case t == "FeatureCollection" && r.Intn(5) != 0:
 				c = GenDocType(r, o, depth+1, "Feature")
 			case t == "GeometryCollection" && r.Intn(5) != 0:
-				c = GenDocType(r, o, depth+1, geomTypes[r.Intn(len(geomTypes))])
 				if depth+1 >= o.MaxDepth {
 					c = GenDocType(r, o, depth+1, geomTypes[r.Intn(6)])
+				} else {
+					c = GenDocType(r, o, depth+1, geomTypes[r.Intn(len(geomTypes))])
 				}
 			default:
 				c = GenDoc(r, o, depth+1)
